@@ -590,9 +590,30 @@ var mutators = []mutator{
 		if m.r.Chance(1, 2) {
 			m.insert(s, &gSel{Kind: kInline, Cond: t.TypeName(), Sub: &gSet{Parent: t, Sels: []*gSel{leaf("__typename")}}})
 		} else {
-			m.d.Frags = append(m.d.Frags, &gFrag{Name: "Imp", Cond: t.TypeName(), CondT: t, Set: &gSet{Parent: t, Sels: []*gSel{leaf("__typename")}}, Done: true})
+			impSet := &gSet{Parent: t, Sels: []*gSel{leaf("__typename")}}
+			m.d.Frags = append(m.d.Frags, &gFrag{Name: "Imp", Cond: t.TypeName(), CondT: t, Set: impSet, Done: true})
 			m.insert(s, &gSel{Kind: kSpread, Name: "Imp"})
 			m.d.Order = nil
+			// now and then the same fragment is also spread where it is possible: each spread is
+			// checked against its own parent type, whichever comes first in the document
+			if m.r.Chance(2, 3) {
+				pt := possible(t)
+				var ok []*gSet
+				for _, s2 := range m.d.sets() {
+					if s2 == s || s2 == impSet || s2.Parent == nil {
+						continue
+					}
+					for k := range possible(s2.Parent) {
+						if pt[k] {
+							ok = append(ok, s2)
+							break
+						}
+					}
+				}
+				if len(ok) > 0 {
+					m.insert(rng.Pick(m.r, ok), &gSel{Kind: kSpread, Name: "Imp"})
+				}
+			}
 		}
 		return true
 	}},
